@@ -1,3 +1,5 @@
+//go:build all || c02
+
 package scen
 
 import (
